@@ -188,9 +188,9 @@ PROPS["C06"] = {
 C07_AUD = ["Harness_C07_audit_update_0_2", "Harness_C07_audit_update_1_2", "Harness_C07_audit_update_2_1", "Harness_C07_audit_update_2_2", "Harness_C07_audit_delete_2_1", "Harness_C07_audit_delete_3_1", "Harness_C07_audit_delete_3_0"]
 def c07_chain():
     j = chain_job("C07")
-    j["quick"] = ["Harness_C07_%s" % h for h in CHAIN_H if h != "CloseDeployment"]
-    j["thorough"] = ["Harness_C07_%s" % h for h in CHAIN_H]
-    j["reach"] = {}
+    j["quick"] = ["Harness_C07_%s" % h for h in CHAIN_H if h != "CloseDeployment"] + ["Harness_C07_proc_CreateDeployment", "Harness_C07_proc_CreateBid"]
+    j["thorough"] = ["Harness_C07_%s" % h for h in CHAIN_H] + ["Harness_C07_proc_CreateDeployment", "Harness_C07_proc_CreateBid"]
+    j["reach"] = {"Harness_C07_proc_CreateDeployment": ["executed-twice", "accepted"], "Harness_C07_proc_CreateBid": ["executed-twice", "accepted"]}
     return j
 PROPS["C07"] = {
     "jobs": [
@@ -201,7 +201,7 @@ PROPS["C07"] = {
          "quick": ["Harness_C07_cert_create_1", "Harness_C07_cert_revoke_1"], "thorough": ["Harness_C07_cert_create_1", "Harness_C07_cert_revoke_1"],
          "opts": {"timeout": 20000, "maxbigbytes": 9}, "reach": {"Harness_C07_cert_create_1": ["executed-twice", "accepted"]}},
     ],
-    "bounds": {"quick": "2-run self-composition: (B) audit keeper CreateOrUpdate/DeleteProviderAttributes with <=2 (delete: 3) stored and <=2 new attributes, symbolic 1-byte keys/values, every map iteration order of both runs; (A) 11 of the 12 deployment/market handlers (thorough: all 12) executed twice on forked contexts from the arbitrary INV pre-state of the chain step with map iteration order inside the code under test turned into choice points; (C) certificate create / revoke executed twice at two different wall-clock instants (two-epoch clock; the certificate's validity window contains either, both or none) from a state of 1 stored certificate",
+    "bounds": {"quick": "2-run self-composition: (B) audit keeper CreateOrUpdate/DeleteProviderAttributes with <=2 (delete: 3) stored and <=2 new attributes, symbolic 1-byte keys/values, every map iteration order of both runs; (A) 11 of the 12 deployment/market handlers (thorough: all 12) executed twice on forked contexts from the arbitrary INV pre-state of the chain step with map iteration order inside the code under test turned into choice points; (A') create-deployment and create-bid executed by a long-running node (keepers that already read their parameters) and by a freshly wired set of keepers over the same stores after the module parameters were changed directly in the parameter store; (C) certificate create / revoke executed twice at two different wall-clock instants (two-epoch clock; the certificate's validity window contains either, both or none) from a state of 1 stored certificate",
                "thorough": "adds 3 stored attributes and CloseDeployment"},
     "stubs": CHAIN_STUBS + ["sort.Slice/SliceStable -> the real stable_func/pdqsort_func SSA with an engine swapper", "Go map iteration order -> one choice point per range statement in code under test (all permutations)"],
     "outside_claim": ["non-determinism inside Tendermint/IAVL/protobuf encoding", "rand/goroutines (none is reachable from the handlers: any call would end the path as unsupported and be reported)", "provider and audit-message handlers beyond the audit keeper kernels"],
@@ -247,9 +247,9 @@ PROPS["C18"] = {
     "jobs": [{"pkg": "sdl", "files": ["harness/C18/sdl.go"], "quick": C18_Q,
               "thorough": C18_Q + ["Harness_C18_faithful_2x2", "Harness_C18_faithful_1x1e2", "Harness_C18_determinism_2x2"], "opts": {"timeout": 30000},
               "reach": {"Harness_C18_faithful_1x1": ["translated", "document-valid"]}},
-             {"pkg": "sdl", "files": ["harness/C18/toplevel.go"], "shims": ["shim.go.tmpl", "shim_loop.go.tmpl"],
-              "quick": ["Harness_C18_toplevel_order"], "thorough": ["Harness_C18_toplevel_order"], "opts": {"timeout": 30000, "witness": 4},
-              "reach": {"Harness_C18_toplevel_order": ["unmarshalled"]}}],
+             {"pkg": "sdl", "files": ["harness/C18/toplevel.go", "harness/C18/attrs.go"], "shims": ["shim.go.tmpl", "shim_loop.go.tmpl"],
+              "quick": ["Harness_C18_toplevel_order", "Harness_C18_attr_order"], "thorough": ["Harness_C18_toplevel_order", "Harness_C18_attr_order"], "opts": {"timeout": 30000, "witness": 4},
+              "reach": {"Harness_C18_toplevel_order": ["unmarshalled"], "Harness_C18_attr_order": ["unmarshalled"]}}],
     "bounds": {"quick": "top level: (*sdl).UnmarshalYAML on a mapping node with the entries version/services/profiles/deployment in all 24 orders (node.Decode stubbed in the engine); decoded SDL v2 value: <=2 services x <=2 placements (not both 2 in quick) x <=2 compute profiles, 1 expose per service (thorough 2) with symbolic port/as/proto/to/global, symbolic 1-byte image suffix/command/argument/env value, symbolic counts, cpu/memory/storage and prices inside the chain's limits; determinism: two runs with every Go map iteration order explored independently",
                "thorough": "2x2 services x placements, 2 exposes"},
     "stubs": COMMON_STUBS + ["sort.Slice/sort.Strings -> real sort code with an engine swapper", "regexp (service names, env names, hostnames) -> native evaluation on concrete strings"],
@@ -282,9 +282,9 @@ PROPS["C14"] = {
     "jobs": [{"pkg": "provider/cluster", "files": ["harness/C14/manager.go"], "shims": ["shim.go.tmpl", "shim_loop.go.tmpl"],
               "quick": ["Harness_C14_5"], "thorough": ["Harness_C14_6", "Harness_C14_8"],
               "opts": {"timeout": 20000, "witness": 6}, "reach": {"Harness_C14_5": ["returned", "idle"]}},
-             {"pkg": "provider/cluster", "files": ["harness/C14/manager.go", "harness/C14/service.go"], "shims": ["shim.go.tmpl", "shim_loop.go.tmpl"],
-              "quick": ["Harness_C14_service_4"], "thorough": ["Harness_C14_service_5"],
-              "opts": {"timeout": 20000, "witness": 4}, "reach": {"Harness_C14_service_4": ["observed"], "Harness_C14_service_5": ["observed"]}}],
+             {"pkg": "provider/cluster", "files": ["harness/C14/manager.go", "harness/C14/service.go", "harness/C14/hostname.go"], "shims": ["shim.go.tmpl", "shim_loop.go.tmpl"],
+              "quick": ["Harness_C14_service_4", "Harness_C14_hostnames"], "thorough": ["Harness_C14_service_5", "Harness_C14_hostnames"],
+              "opts": {"timeout": 20000, "witness": 4}, "reach": {"Harness_C14_service_4": ["observed"], "Harness_C14_service_5": ["observed"], "Harness_C14_hostnames": ["reserved", "nothing-reserved", "released"]}}],
     "bounds": {"quick": "(*deploymentManager).run with startDeploy/startTeardown/do/doDeploy/doTeardown: <=6 selects before shutdown is forced, then the post-loop drain; hostname reservation ok/failed, <=2 manifest updates, one lease-closed (teardown) request, deploy and teardown completing ok or failing at any scheduler-chosen point, provider shutdown at any point",
                "thorough": "8 and 10 selects"},
     "stubs": LOOP_STUBS + ["newDeploymentMonitor/newDeploymentWithdrawal -> already-finished stubs in the engine (natively the real ones run against the stub client)", "retry.Do -> up to 3 immediate attempts"],
@@ -340,8 +340,11 @@ C15_Q = ["Harness_C15_root_0", "Harness_C15_root_2", "Harness_C15_sub_0_2", "Har
 PROPS["C15"] = {
     "jobs": [{"pkg": "pubsub", "files": ["harness/C15/bus.go"], "shims": ["shim.go.tmpl", "shim_loop.go.tmpl"],
               "quick": C15_Q, "thorough": C15_Q + ["Harness_C15_sub_3_1", "Harness_C15_root_3d"], "opts": {"timeout": 20000, "witness": 4},
-              "reach": {"Harness_C15_sub_2_2": ["stepped"]}}],
-    "bounds": {"quick": "single-step lemmas on the real (*bus).run body and newSubscriber: bus in root or subscriber mode with 0/1/2 buffered events and 0/1/2 children; one of publish / emit / subscribe(clone) / unsubscribe, then shutdown with its post-loop collection of children; variants in which one of 2 children has already begun shutting down (it no longer reads; every map iteration order)",
+              "reach": {"Harness_C15_sub_2_2": ["stepped"]}},
+             {"pkg": "events", "files": ["harness/C15/feeder.go"], "shims": ["shim.go.tmpl", "shim_loop.go.tmpl"],
+              "quick": ["Harness_C15_feeder"], "thorough": ["Harness_C15_feeder"], "opts": {"timeout": 20000, "witness": 2},
+              "reach": {"Harness_C15_feeder": ["fed"]}}],
+    "bounds": {"quick": "single-step lemmas on the real (*bus).run body and newSubscriber: bus in root or subscriber mode with 0/1/2 buffered events and 0/1/2 children; one of publish / emit / subscribe(clone) / unsubscribe, then shutdown with its post-loop collection of children; variants in which one of 2 children has already begun shutting down (it no longer reads; every map iteration order); feeder: the real events.publishEvents loop fed 3 transaction results back to back (the second failed or not), any goroutine it starts completing in any order",
                "thorough": "adds 3 buffered events x 1 child, and 3 children one of them closing"},
     "stubs": LOOP_STUBS + ["child buses -> environment sinks/sources (their own loops are not run in the engine; natively live reader goroutines stand in for them)"],
     "outside_claim": ["the end-to-end statement over all interleavings of concurrent goroutines: it follows from the step lemmas only through a hand-written compositional argument (per-subscriber FIFO invariant) that is not solver-checked", "data races"],
@@ -350,7 +353,7 @@ PROPS["C15"] = {
     "explanation": "Solver-decided single-step lemmas on the real (*bus).run body and newSubscriber (publish hands the event to every child once and appends it once; emit sends and drops exactly the oldest buffered event; a clone starts with a private copy of the undelivered buffer; unsubscribe removes the child; shutdown signals and collects every child and notifies the parent once; no step blocks). The property's end-to-end statement over all interleavings of concurrent goroutines follows from these lemmas only through a hand-written compositional argument (per-subscriber FIFO invariant: delivered ++ buffer = published since subscription) which is NOT checked by the solver; multi-goroutine interleavings are outside bounded single-goroutine symbolic execution.",
 }
 
-PROPS["C10"]["jobs"] = PROPS["C10"]["jobs"] + PROPS["C20"]["jobs"][:1]
+PROPS["C10"]["jobs"] = PROPS["C10"]["jobs"] + PROPS["C20"]["jobs"][:1] + PROPS["C18"]["jobs"][1:2]
 PROPS["C10"]["bounds"] = {k: v + "; version rule of validateRequest: in the C20 manager harness a manifest is accepted only with the expected version (last update, else chain version) - version hashes are injective tags" for k, v in PROPS["C10"]["bounds"].items()}
 
 PROPS["C02"]["jobs"] = PROPS["C02"]["jobs"] + [esc_job("C02")]
